@@ -81,7 +81,7 @@ Print Assumptions C19_staking_rewards_lower.
    pool, no error carried in: rate * elapsed = 1.0000000000000000005 units,
    paid 0. *)
 Definition w_state : state :=
-  mk_state [1000000000000000000; 0; 333333333333333333500000000; 0; 0; 1000; 0; 0; 5000; 0; 0; 0; 0; 0] [] [].
+  mk_state [1000000000000000000; 0; 333333333333333333500000000; 0; 0; 1000; 0; 0; 5000; 0; 0; 0; 0; 0] [] [] [] [].
 Definition w_ops : list op :=
   [Block 1000000000000000001 0 0; Block 1000000000000000002 0 0; Block 1000000000000000003 0 0].
 
@@ -143,7 +143,7 @@ Theorem C19_disable_fires :
   c_rate s' = c_upg_rate s /\ c_upg s' = 0 /\ c_upg_rate s' = c_upg_rate s /\
   m_min s' = 0 /\ m_max s' = 0 /\ d_tax s' = 0 /\ kd_active s' = false /\
   supply s' = supply s /\ kdbal s' = kdbal s /\
-  (exists b, x = OBlock b /\ b_fired b = true /\ b_cons b = c /\ b_mint b = 0 /\ b_ws b = [] /\ b_wsi b = []).
+  (exists b, x = OBlock b /\ b_fired b = true /\ b_cons b = c /\ b_mint b = 0 /\ b_ws b = [] /\ b_wsi b = [] /\ b_dist b = no_dist).
 Proof. intros t m c s s' x H1 H2. apply block_fire. apply switch_due_iff. auto. Qed.
 Print Assumptions C19_disable_fires.
 
@@ -229,6 +229,232 @@ Theorem C19_kavadist_no_panic :
 Proof. exact mint_periods_no_panic. Qed.
 Print Assumptions C19_kavadist_no_panic.
 
+(** ** Distribution of the infrastructure coins (partner and core rewards) *)
+
+(* Reading guide.  [distribute te coins s] is distributeInfrastructureCoins
+   called with timeElapsed = te and coinsToDistribute = coins on state s (None =
+   it returned an error or panicked; the begin blocker turns both into a chain
+   halt).  Its record [d]: [d_partner], [d_core] the payments made, in order;
+   [d_rem] what is left over.  The code does not send the remainder anywhere: it
+   stays in the x/kavadist module account, where the coins were minted.
+   [amounts] sums a payment list; [minted ws] sums the coins of a window list. *)
+
+(* Conservation, for every call: the coins handed over are split without
+   remainder into partner payments, core payments and the left-over; nothing is
+   negative; the community pool, the kavadist account and the users' balances
+   move by exactly the payments addressed to them and nothing else moves; the
+   partner payments are rate_i x te in list order, the core payments the rounded
+   weight_j of what is left at that point. *)
+Theorem C19_infra_distribution_conserves :
+  forall te coins s s' d, distribute te coins s = Some (s', d) ->
+  d_te d = te /\ d_coins d = coins /\ dist_good s s' d.
+Proof. exact distribute_facts. Qed.
+Print Assumptions C19_infra_distribution_conserves.
+
+(* The parts paid never exceed what was handed over. *)
+Theorem C19_infra_paid_within_minted :
+  forall s s' d, dist_good s s' d -> 0 <= d_coins d ->
+  0 <= amounts (d_partner d) /\ 0 <= amounts (d_core d) /\ dist_paid d <= d_coins d.
+Proof. exact dist_good_bound. Qed.
+Print Assumptions C19_infra_paid_within_minted.
+
+(* A core reward is the banker's rounding of weight x what is left: within half a coin of the exact share. *)
+Theorem C19_infra_core_share :
+  forall left w, 2 * (left * w) - PREC <= 2 * (core_amount left w * PREC) <= 2 * (left * w) + PREC.
+Proof. exact core_amount_exact. Qed.
+Print Assumptions C19_infra_core_share.
+
+(* In every block of every history: the coins distributed are exactly those
+   minted for the infrastructure periods in that block; partner + core +
+   left-over = minted; the total paid out never exceeds the minted amount; the
+   payments follow the configured lists.  And every coin is somewhere: the
+   accounts of the model (community pool, fee collector + x/distribution,
+   kavadist, the reward recipients) hold the supply, up to what was deposited
+   into or spent from the pool from outside. *)
+Theorem C19_infra_all_histories :
+  forall ops s sf outs, run_outs s ops = (sf, outs) ->
+  Forall (dist_block_ok (kd_partners s) (kd_cores s)) (blocks outs) /\
+  ledger sf - supply sf = ledger s - supply s + deposits outs /\
+  kd_partners sf = kd_partners s /\ kd_cores sf = kd_cores s.
+Proof. exact run_dist. Qed.
+Print Assumptions C19_infra_all_histories.
+
+(* One block creates exactly as many coins as its accounts gain. *)
+Theorem C19_block_every_coin_goes_somewhere :
+  forall t m c s s' x, block t m c s = Ok s' x -> ledger s' - ledger s = supply s' - supply s.
+Proof. exact block_ledger. Qed.
+Print Assumptions C19_block_every_coin_goes_somewhere.
+
+(* The elapsed time the partner rewards are multiplied by is the value
+   mintInfrastructurePeriods hands over; for a chronological period list it is
+   never negative and never more than the whole seconds since the previous block.
+   (validateInfraParams does not enforce chronological order for this list;
+   with overlapping ongoing periods every one of them adds now - prev.) *)
+Theorem C19_infra_elapsed_within_block_interval :
+  forall now t m c s s' x,
+  InvT now s -> head_ok now (Block t m c) -> periods_valid 0 (kd_infra s) ->
+  block t m c s = Ok s' x ->
+  exists b, x = OBlock b /\ 0 <= d_te (b_dist b) <= unix t - unix (kd_prev s).
+Proof. exact block_te_bound. Qed.
+Print Assumptions C19_infra_elapsed_within_block_interval.
+
+(* Partner payments follow the seconds inside the periods only (after fix commit
+   f4ddd6441).  The elapsed time the rates are multiplied by is the total
+   length of the windows minted for the infrastructure periods in this block;
+   each of those windows lies inside its period and inside the block interval
+   (prev, now], and each period contributes at most one window.  So the
+   distribution never asks for time outside a period, nor for time that was not
+   minted for. *)
+Theorem C19_infra_partner_time_is_time_minted_for :
+  forall now ps i prev sup sup' ws te,
+  mint_periods now ps i prev sup = Some (sup', ws) ->
+  infra_elapsed now ps prev te = te + win_secs ws.
+Proof. exact infra_elapsed_windows. Qed.
+Print Assumptions C19_infra_partner_time_is_time_minted_for.
+
+Theorem C19_infra_block_elapsed :
+  forall t m c s s' x, block t m c s = Ok s' x ->
+  exists b, x = OBlock b /\ dist_block_ok (kd_partners s) (kd_cores s) b /\
+    d_te (b_dist b) = win_secs (b_wsi b) /\
+    (d_te (b_dist b) = 0 \/ d_te (b_dist b) = infra_elapsed t (kd_infra s) (kd_prev s) 0).
+Proof. exact block_dist. Qed.
+Print Assumptions C19_infra_block_elapsed.
+
+Theorem C19_infra_partner_time_inside_periods :
+  forall now t m c s s' x,
+  InvT now s -> head_ok now (Block t m c) -> block t m c s = Ok s' x ->
+  exists b, x = OBlock b /\
+    d_te (b_dist b) = win_secs (b_wsi b) /\
+    Forall (fun w =>
+      unix (p_start (w_per w)) <= w_from w /\ w_to w <= unix (p_end (w_per w)) /\
+      unix (kd_prev s) <= w_from w /\ w_from w <= w_to w /\ w_to w <= unix t) (b_wsi b) /\
+    NoDup (map w_idx (b_wsi b)).
+Proof.
+  intros now t m c s s' x HT HO HB.
+  destruct (block_kd now t m c s s' x HT HO HB) as (b & E & _ & W & _ & N & _).
+  destruct (block_dist t m c s s' x HB) as (b' & E' & _ & TE & _).
+  rewrite E in E'. inversion E'; subst b'. exists b. split; [exact E|]. split; [exact TE|]. split; [|exact N].
+  eapply Forall_impl; [|exact W]. intros w (A & B & C & D & E1 & F & G & H). repeat split; lia.
+Qed.
+Print Assumptions C19_infra_partner_time_inside_periods.
+
+(* With one infrastructure period, whenever anything is minted the elapsed time
+   is exactly the time of the block interval inside the period. *)
+Theorem C19_infra_single_period_exact :
+  forall now p i prev sup sup' ws,
+  prev <= now -> p_start p <= p_end p ->
+  mint_periods now [p] i prev sup = Some (sup', ws) ->
+  ws = [] \/ exists w, ws = [w] /\ infra_elapsed now [p] prev 0 = w_len w /\ w_len w = inside_one now prev p.
+Proof. exact infra_single. Qed.
+Print Assumptions C19_infra_single_period_exact.
+
+(* Regression: the witnesses that refuted this on the pre-fix code
+   ([infra_elapsed_old]: the LAST assignment, case 4 assigning now - prev
+   without minting).
+   Witness 1: periods [t0, t0+10s] and [t0+100d, t0+200d], previous block at
+   t0+5s, this block at t0+10d: 5 seconds are inside a period and minted for;
+   the old code handed over 863990 s = now - End of the first period.
+   Witness 2: contiguous periods [t0, t0+10s], [t0+10s, t0+100d], previous block
+   at t0+5s, this block at t0+12s: 7 seconds minted for, the old code handed over 2.
+   The fixed function gives 5 and 7. *)
+Definition wt0 : Z := 1704067200 * NS.
+Definition wD : Z := 86400 * NS.
+Definition w_infl : Z := 1000000003022265980.
+Definition w1_ps : list period := [mkPeriod wt0 (wt0 + 10 * NS) w_infl; mkPeriod (wt0 + 100 * wD) (wt0 + 200 * wD) w_infl].
+Definition w2_ps : list period := [mkPeriod wt0 (wt0 + 10 * NS) w_infl; mkPeriod (wt0 + 10 * NS) (wt0 + 100 * wD) w_infl].
+
+Theorem C19_infra_partner_time_regression :
+  (exists sup' ws,
+     periods_valid 0 w1_ps /\ periods_ok w1_ps /\
+     mint_periods (wt0 + 10 * wD) w1_ps 0 (wt0 + 5 * NS) 1100000000000000 = Some (sup', ws) /\
+     inside_secs (wt0 + 10 * wD) (wt0 + 5 * NS) w1_ps = 5 /\ win_secs ws = 5 /\ 0 < minted ws /\
+     infra_elapsed_old (wt0 + 10 * wD) w1_ps (wt0 + 5 * NS) 0 = 863990 /\
+     infra_elapsed (wt0 + 10 * wD) w1_ps (wt0 + 5 * NS) 0 = 5) /\
+  (exists sup' ws,
+     periods_valid 0 w2_ps /\ periods_ok w2_ps /\
+     mint_periods (wt0 + 12 * NS) w2_ps 0 (wt0 + 5 * NS) 1100000000000000 = Some (sup', ws) /\
+     inside_secs (wt0 + 12 * NS) (wt0 + 5 * NS) w2_ps = 7 /\ win_secs ws = 7 /\
+     infra_elapsed_old (wt0 + 12 * NS) w2_ps (wt0 + 5 * NS) 0 = 2 /\
+     infra_elapsed (wt0 + 12 * NS) w2_ps (wt0 + 5 * NS) 0 = 7).
+Proof.
+  split.
+  - eexists. eexists.
+    split; [cbn [w1_ps periods_valid p_start p_end]; repeat split; apply Z.leb_le; vm_compute; reflexivity|].
+    split; [cbn [w1_ps periods_ok p_start p_end p_infl]; repeat split; apply Z.leb_le; vm_compute; reflexivity|].
+    split; [vm_compute; reflexivity|].
+    repeat split; vm_compute; reflexivity.
+  - eexists. eexists.
+    split; [cbn [w2_ps periods_valid p_start p_end]; repeat split; apply Z.leb_le; vm_compute; reflexivity|].
+    split; [cbn [w2_ps periods_ok p_start p_end p_infl]; repeat split; apply Z.leb_le; vm_compute; reflexivity|].
+    split; [vm_compute; reflexivity|].
+    repeat split; vm_compute; reflexivity.
+Qed.
+Print Assumptions C19_infra_partner_time_regression.
+
+(* what the pre-fix function computed whenever no period still lay in the future: the last window only *)
+Theorem C19_infra_old_elapsed_was_last_window :
+  forall now ps i prev sup sup' ws te,
+  mint_periods now ps i prev sup = Some (sup', ws) ->
+  Forall (fun p => p_start p < now) ps ->
+  infra_elapsed_old now ps prev te = last (map w_len ws) te.
+Proof. exact infra_elapsed_old_last_window. Qed.
+Print Assumptions C19_infra_old_elapsed_was_last_window.
+
+(* No panic: a valid non-deflationary schedule, payable reward addresses, rates
+   >= 0, weights in [0,1], and partner rewards for the elapsed time covered by
+   the coins minted for the infrastructure periods in that block. *)
+Theorem C19_infra_no_panic :
+  forall t s,
+  0 <= kd_prev s <= t -> 0 <= supply s -> 0 <= kdbal s ->
+  periods_ok (kd_periods s) -> periods_ok (kd_infra s) -> recipients_ok s ->
+  (forall s1 ws wsi, kavadist_bb t s = Ok s1 (ws, wsi) ->
+     infra_elapsed t (kd_infra s) (kd_prev s) 0 * zsum (map pr_rate (kd_partners s)) <= minted wsi) ->
+  exists s' w, kavadist_full t s = Ok s' w.
+Proof. exact kavadist_full_no_panic. Qed.
+Print Assumptions C19_infra_no_panic.
+
+(* The shortfall: when the partner rewards for the elapsed time exceed the coins
+   minted (and something was minted), the code does not pay what it can, it
+   fails -- MintPeriodInflation returns "negative coins" (or x/bank's
+   insufficient funds) and kavadist's BeginBlocker panics: the chain halts.  It
+   never pays out more than it minted. *)
+Theorem C19_infra_shortfall_panics :
+  forall t s s1 ws wsi,
+  kd_active s = true -> kd_prev s <> 0 -> kavadist_bb t s = Ok s1 (ws, wsi) ->
+  infra_elapsed t (kd_infra s) (kd_prev s) 0 <> 0 -> minted wsi <> 0 ->
+  minted wsi < infra_elapsed t (kd_infra s) (kd_prev s) 0 * zsum (map pr_rate (kd_partners s)) ->
+  kavadist_full t s = Panic.
+Proof. exact kavadist_full_shortfall_panics. Qed.
+Print Assumptions C19_infra_shortfall_panics.
+
+(* Regression: witness 1 with ONE partner at 0.05 KAVA per second halted the chain
+   on the pre-fix code (5 seconds minted for = 16.6 KAVA; 0.05 x 863990 =
+   43199.5 KAVA owed for time after the period).  On the fixed code the block
+   succeeds: the partner is paid 0.05 x 5 s = 0.25 KAVA out of the 16.6 minted. *)
+Definition w1_state : state :=
+  mk_state [wt0 + 5 * NS; 0; 0; 0; 0; 1000000; 0; 0; 1100000000000000; 0; 0; 0; 1; wt0 + 5 * NS; 0]
+           [] w1_ps [mkPartner (RUser 0) 50000] [].
+Theorem C19_infra_valid_schedule_no_longer_halts :
+  inv_b w1_state = true /\ periods_valid 0 (kd_infra w1_state) /\ periods_ok (kd_infra w1_state) /\
+  recipients_ok w1_state /\
+  match block (wt0 + 10 * wD) 0 0 w1_state with
+  | Ok s' (OBlock b) =>
+      d_te (b_dist b) = 5 /\ d_coins (b_dist b) = 16622462 /\ map pay_amt (d_partner (b_dist b)) = [250000] /\
+      users s' = [250000] /\ d_rem (b_dist b) = 16372462
+  | _ => False
+  end /\
+  (* the pre-fix elapsed time would not have been covered *)
+  16622462 < infra_elapsed_old (wt0 + 10 * wD) w1_ps (wt0 + 5 * NS) 0 * 50000.
+Proof.
+  split; [vm_compute; reflexivity|].
+  split; [cbn [w1_state mk_state kd_infra w1_ps periods_valid p_start p_end]; repeat split; apply Z.leb_le; vm_compute; reflexivity|].
+  split; [cbn [w1_state mk_state kd_infra w1_ps periods_ok p_start p_end p_infl]; repeat split; apply Z.leb_le; vm_compute; reflexivity|].
+  split; [unfold recipients_ok; split; [repeat constructor; discriminate|constructor]|].
+  split; [vm_compute; repeat split; reflexivity|].
+  apply Z.ltb_lt. vm_compute. reflexivity.
+Qed.
+Print Assumptions C19_infra_valid_schedule_no_longer_halts.
+
 (** ** Non-vacuity *)
 
 (* a one-hour period lying between two blocks ten days apart is minted for one hour *)
@@ -250,10 +476,28 @@ Proof. vm_compute. reflexivity. Qed.
 Example C19_hypotheses_satisfiable :
   let s := mk_state [1704067200000000000; 0; 744191500000000000000000; 1704067300000000000; 5000000000000000000;
                      1000000000000; 2000; 0; 1100000000000000; 70000000000000000; 200000000000000000; 20000000000000000; 1; 1704067200000000000]
-                    [mkPeriod 1703980800000000000 1729987200000000000 1000000003022265980] [] in
+                    [mkPeriod 1703980800000000000 1729987200000000000 1000000003022265980] [] [] [] in
   let ops := [Block 1704067206500000000 17 0; PoolAdj 5; Block 1704067300000000000 23 1000; Block 1704067306000000000 9 0] in
   inv_b s = true /\
   (let '(sf, outs) := run_outs s ops in
    (map p_paid (pays outs), fired_count outs, supply sf - supply s, c_rate sf, m_max sf, kd_active sf, sr_err sf))
   = ([4837244; 468; 30], 1%nat, 19946972, 5000000000000000000, 0, false, 250000000000000000).
 Proof. cbv zeta. split; vm_compute; reflexivity. Qed.
+
+(* a block that distributes: one ongoing infrastructure period, two partners (a
+   user and the community pool), two core recipients (a user at 50% and the
+   kavadist account itself at 100% of the rest); 6 seconds, 19946955 ukava minted;
+   the 50% share of 19946055 is 9973027.5, which RoundInt takes to the even 9973028 *)
+Example C19_distribution_example :
+  let s := mk_state [wt0; 0; 0; 0; 0; 1000000; 0; 500; 1100000000000000; 0; 0; 0; 1; wt0; 7; 0]
+                    [] [mkPeriod (wt0 - wD) (wt0 + 300 * wD) w_infl]
+                    [mkPartner (RUser 0) 100; mkPartner RCommunity 50]
+                    [mkCore (RUser 1) 500000000000000000; mkCore RKavadist PREC] in
+  match block (wt0 + 6 * NS) 0 0 s with
+  | Ok s' (OBlock b) =>
+      (d_te (b_dist b), d_coins (b_dist b), map pay_amt (d_partner (b_dist b)), map pay_amt (d_core (b_dist b)),
+       d_rem (b_dist b), users s', pool s', kdbal s', supply s' - supply s)
+      = (6, 19946955, [600; 300], [9973028; 9973027], 0, [607; 9973028], 1000300, 500 + 9973027, 19946955)
+  | _ => False
+  end.
+Proof. cbv zeta. vm_compute. reflexivity. Qed.
